@@ -466,7 +466,9 @@ func (g *c3Gen) flag(perm bool) string {
 	case r < 55:
 		return g.pick(`\seen`, `\ANSWERED`, `\fLAGGED`, `$forwarded`, `$JUNK`, `$important`, `\Recent`, `\draft`)
 	case r < 85:
-		return g.pick("custom", "Work", "$label1", "a.b", "x-y_z", "caf\xe9", "\xc4\xb0mportant", `\Custom`, "k:v", "1")
+		// keywords are case-preserved: variants differing only in case are different spellings
+		return g.pick("custom", "Work", "$label1", "a.b", "x-y_z", "caf\xe9", "\xc4\xb0mportant", `\Custom`, "k:v", "1",
+			"Custom", "CUSTOM", "work", "$Label1", "$LABEL1", "TODO", "Todo", `\custom`)
 	case r < 96:
 		if perm {
 			return `\*`
@@ -495,7 +497,7 @@ func (g *c3Gen) attr() string {
 	case r < 60:
 		return g.pick(`\NonExistent`, `\Noinferiors`, `\Noselect`, `\HasChildren`, `\HasNoChildren`, `\Marked`, `\Unmarked`, `\Subscribed`, `\Remote`, `\All`, `\Archive`, `\Drafts`, `\Flagged`, `\Junk`, `\Sent`, `\Trash`, `\Important`)
 	case r < 80:
-		return g.pick(`\noselect`, `\HASCHILDREN`, `\sent`, `\X-Custom`, `\seen`, `\a.b`)
+		return g.pick(`\noselect`, `\HASCHILDREN`, `\sent`, `\X-Custom`, `\seen`, `\a.b`, `\x-custom`, `\X-CUSTOM`)
 	case r < 92:
 		return g.pick(`\caf`+"\xe9", `\1`, `\$x`)
 	default:
@@ -663,6 +665,11 @@ func (g *c3Gen) params() *[]c3KV {
 		if g.p(4) {
 			k = g.pick("", "Charset", "CHARSET", "charset")
 		}
+		// RFC 2231 extended parameters travel as opaque name/value pairs
+		ext := g.p(8)
+		if ext {
+			k = g.pick("filename*", "name*", "Title*", "filename*0*", "x-mark*", "filename")
+		}
 		if seen[k] {
 			continue
 		}
@@ -670,6 +677,9 @@ func (g *c3Gen) params() *[]c3KV {
 		v := g.token()
 		if g.p(40) {
 			v = g.text()
+		}
+		if ext {
+			v = g.pick("utf-8''r%C3%A9sum%C3%A9.pdf", "us-ascii'en'a%20b.txt", "UTF-8''%e2%82%ac", "iso-8859-1''%e9", "utf-8'x", "100%", "r_sum_.pdf")
 		}
 		l = append(l, c3KV{k, v})
 	}
